@@ -255,12 +255,16 @@ def snapshot(o, depth=0, seen=None):
 
 
 def _has_nan(x, depth=0):
+    if depth == 0 and not vals.plain(x if type(x) is not list else tuple(x)):
+        return True          # an element that is an object hashes by identity as well (or not at all)
     if type(x) is float:
         return x != x
     if type(x) is complex:
         return x.real != x.real or x.imag != x.imag
     if type(x) in (tuple, list, frozenset) and depth < 6:
         return any(_has_nan(e, depth + 1) for e in x)
+    if type(x) is slice and depth < 6:
+        return any(_has_nan(e, depth + 1) for e in (x.start, x.stop, x.step))
     return False
 
 
